@@ -51,10 +51,10 @@ func genC08(g gen.G) C08Case {
 // expectedAt describes what the constraint at the cursor expects, when the cursor
 // is directly in an attribute value whose expression is a plain traversal or empty.
 type expectedAt struct {
-	known  bool
-	scopes []string   // admitted reference scopes ("" entries: any scope)
-	types  []cty.Type // admitted types
-	typeless bool     // a type-less reference constraint is among the admitted ones
+	known    bool
+	scopes   []string   // admitted reference scopes ("" entries: any scope)
+	types    []cty.Type // admitted types
+	typeless bool       // a type-less reference constraint is among the admitted ones
 }
 
 func flattenCons(c m.ConsM, out *[]m.ConsM) {
